@@ -713,3 +713,31 @@ fn any_align() -> Option<FormatAlign> {
 
 
 
+
+// @ob id=C18.k.conversion_parse props=C18,C20,C03 kind=complete tier=quick
+// @clause conversion prefix: '!' followed by one of s r a b is a conversion and exactly those two characters are consumed (cut on character boundaries); anything else - also '!' followed by another character, or a lone '!' - consumes nothing (all pairs of chars and shorter texts)
+// @fns FormatConversion::parse FormatConversion::from_string FormatConversion::from_char
+#[kani::proof]
+#[kani::unwind(7)]
+#[kani::stub(core::str::slice_error_fail, slice_error_fail_plain)]
+fn c18_conversion_parse() {
+    let c1: char = kani::any();
+    let c2: char = kani::any();
+    let n: usize = kani::any();
+    kani::assume(n <= 2);
+    let mut buf = [0u8; 9];
+    let text = two_chars_then_z(c1, c2, n, &mut buf);
+    let total = text.len();
+    let (conv, rest) = FormatConversion::parse(text);
+    let expect = if n == 2 && c1 == '!' { FormatConversion::from_char(c2) } else { None };
+    assert!(conv == expect);
+    if expect.is_some() {
+        assert!(rest.len() == total - 2);
+        assert!(rest.len() == 1 && rest.as_bytes()[0] == b'Z');
+    } else {
+        assert!(rest.len() == total);
+    }
+    kani::cover!(expect.is_some());
+    kani::cover!(n == 2 && c1 == '!' && expect.is_none());
+    kani::cover!(n == 1 && c1 == '!');
+}
